@@ -94,7 +94,7 @@ Definition aorbit (x : N) : list N :=
   else if ((97 <=? x) && (x <=? 122))%N then [x; (x - 32)%N] else [x].
 Definition ex_repo (nm : list N) : repo :=
   {| r_name := nm; r_id := 7; r_tomb := false; r_ftombs := []; r_branches := [[109]]%N; r_rawmask := 0 |}.
-Definition ex_doc (nm ct : list N) (rp : nat) : doc := {| d_name := nm; d_content := ct; d_mask := 1; d_repo := rp; d_lang := 0 |}.
+Definition ex_doc (nm ct : list N) (rp : nat) : doc := {| d_name := nm; d_content := ct; d_mask := 1; d_repo := rp; d_lang := 0; d_secs := [] |}.
 (** two repositories; documents 0,1,2 in repo 0 and 3,4 in repo 1; "abc" occurs in 0,1,2,4 *)
 Definition ex_corpus : corpus :=
   {| c_repos := [ex_repo [114]%N; ex_repo [115]%N];
